@@ -11,7 +11,7 @@ git checkout -q -- . ; git status --short | grep -v gammademo
 git apply --check $sd/patch.diff || { echo "SEED $id-$k: patch does not apply"; exit 1; }
 git apply $sd/patch.diff
 [ -f configure ] || { autoreconf -i >/dev/null 2>&1 && ./configure >/dev/null 2>&1; }
-res=$(make -j8 check 2>&1 | grep -E '^# (PASS|FAIL|TOTAL)' | tr -d '\n')
+res=$(timeout 900 make -j8 check 2>&1 | grep -E '^# (PASS|FAIL|TOTAL)' | tr -d '\n')
 cmd=$(python3 -c "import json,sys; print(json.load(open('$sd/meta.json'))['demo_cmd'])")
 ( cd $sd && timeout 600 bash -c "$cmd" ) > /tmp/seed-demo-with.log 2>&1; with=$?
 e=$(grep -o 'exit=[0-9]*' /tmp/seed-demo-with.log | tail -1 | cut -d= -f2); [ -n "$e" ] && [ $with -eq 0 ] && with=$e
